@@ -118,55 +118,89 @@ def ident : P Name
 
 mutual
 /-- primary: IDENTIFIER | constant | "(" or ")" -/
-partial def pPrimary : P Expr
-  | Tok.id s :: rest => some (Expr.id s, rest)
-  | Tok.const v :: rest => some (Expr.const v, rest)
-  | Tok.sym "(" :: rest => do
-    let (e, r1) ← pOr rest
-    let (_, r2) ← expectSym ")" r1
-    pure (e, r2)
-  | _ => none
+def pPrimary : Nat → P Expr
+  | 0, _ => none
+  | _ + 1, Tok.id s :: rest => some (Expr.id s, rest)
+  | _ + 1, Tok.const v :: rest => some (Expr.const v, rest)
+  | fuel + 1, Tok.sym "(" :: rest =>
+    match pOr fuel rest with
+    | some (e, r1) => (match expectSym ")" r1 with | some (_, r2) => some (e, r2) | none => none)
+    | none => none
+  | _ + 1, _ => none
 
 /-- unary: primary | ("!"|"~") primary -/
-partial def pUnary : P Expr
-  | Tok.sym "!" :: rest => do let (e, r) ← pPrimary rest; pure (Expr.not e, r)
-  | Tok.sym "~" :: rest => do let (e, r) ← pPrimary rest; pure (Expr.not e, r)
-  | toks => pPrimary toks
+def pUnary : Nat → P Expr
+  | 0, _ => none
+  | fuel + 1, Tok.sym "!" :: rest => (pPrimary fuel rest).map (fun r => (Expr.not r.1, r.2))
+  | fuel + 1, Tok.sym "~" :: rest => (pPrimary fuel rest).map (fun r => (Expr.not r.1, r.2))
+  | fuel + 1, toks => pPrimary fuel toks
 
-partial def pAndTail (lhs : Expr) : P Expr
-  | Tok.sym "&" :: rest => do let (r, rest') ← pUnary rest; pAndTail (Expr.and lhs r) rest'
-  | toks => some (lhs, toks)
-partial def pAnd : P Expr := fun toks => do let (l, r) ← pUnary toks; pAndTail l r
+def pAndTail : Nat → Expr → P Expr
+  | 0, _, _ => none
+  | fuel + 1, lhs, Tok.sym "&" :: rest =>
+    match pUnary fuel rest with
+    | some (r, rest') => pAndTail fuel (Expr.and lhs r) rest'
+    | none => none
+  | _ + 1, lhs, toks => some (lhs, toks)
 
-partial def pXorTail (lhs : Expr) : P Expr
-  | Tok.sym "^" :: rest => do let (r, rest') ← pAnd rest; pXorTail (Expr.xor lhs r) rest'
-  | Tok.sym "~^" :: rest => do let (r, rest') ← pAnd rest; pXorTail (Expr.xnor lhs r) rest'
-  | Tok.sym "^~" :: rest => do let (r, rest') ← pAnd rest; pXorTail (Expr.xnor lhs r) rest'
-  | toks => some (lhs, toks)
-partial def pXor : P Expr := fun toks => do let (l, r) ← pAnd toks; pXorTail l r
+def pAnd : Nat → P Expr
+  | 0, _ => none
+  | fuel + 1, toks => match pUnary fuel toks with | some (l, r) => pAndTail fuel l r | none => none
 
-partial def pOrTail (lhs : Expr) : P Expr
-  | Tok.sym "|" :: rest => do let (r, rest') ← pXor rest; pOrTail (Expr.or lhs r) rest'
-  | toks => some (lhs, toks)
-partial def pOr : P Expr := fun toks => do let (l, r) ← pXor toks; pOrTail l r
+def pXorTail : Nat → Expr → P Expr
+  | 0, _, _ => none
+  | fuel + 1, lhs, Tok.sym "^" :: rest =>
+    match pAnd fuel rest with | some (r, rest') => pXorTail fuel (Expr.xor lhs r) rest' | none => none
+  | fuel + 1, lhs, Tok.sym "~^" :: rest =>
+    match pAnd fuel rest with | some (r, rest') => pXorTail fuel (Expr.xnor lhs r) rest' | none => none
+  | fuel + 1, lhs, Tok.sym "^~" :: rest =>
+    match pAnd fuel rest with | some (r, rest') => pXorTail fuel (Expr.xnor lhs r) rest' | none => none
+  | _ + 1, lhs, toks => some (lhs, toks)
+
+def pXor : Nat → P Expr
+  | 0, _ => none
+  | fuel + 1, toks => match pAnd fuel toks with | some (l, r) => pXorTail fuel l r | none => none
+
+def pOrTail : Nat → Expr → P Expr
+  | 0, _, _ => none
+  | fuel + 1, lhs, Tok.sym "|" :: rest =>
+    match pXor fuel rest with | some (r, rest') => pOrTail fuel (Expr.or lhs r) rest' | none => none
+  | _ + 1, lhs, toks => some (lhs, toks)
+
+def pOr : Nat → P Expr
+  | 0, _ => none
+  | fuel + 1, toks => match pXor fuel toks with | some (l, r) => pOrTail fuel l r | none => none
 end
+
+/-- fuel that always suffices: every recursive call either consumes a token or descends one of at most eight
+    precedence levels -/
+def exprFuel (toks : List Tok) : Nat := 10 * toks.length + 10
 
 /-- expression: condition;  condition: or | or "?" or ":" or -/
 def pExpr : P Expr := fun toks => do
-  let (c, r) ← pOr toks
+  let (c, r) ← pOr (exprFuel toks) toks
   match r with
   | Tok.sym "?" :: r1 =>
-    let (a, r2) ← pOr r1
+    let (a, r2) ← pOr (exprFuel r1) r1
     let (_, r3) ← expectSym ":" r2
-    let (b, r4) ← pOr r3
+    let (b, r4) ← pOr (exprFuel r3) r3
     pure (Expr.mux c a b, r4)
   | _ => pure (c, r)
 
-partial def sepBy {α} (p : P α) (sep : String) : P (List α) := fun toks => do
-  let (x, r) ← p toks
-  match r with
-  | Tok.sym s :: r1 => if s == sep then (do let (xs, r2) ← sepBy p sep r1; pure (x :: xs, r2)) else pure ([x], r)
-  | _ => pure ([x], r)
+/-- `p (sep p)*` -/
+def sepByGo {α} (p : P α) (sep : String) : Nat → P (List α)
+  | 0, _ => none
+  | fuel + 1, toks =>
+    match p toks with
+    | none => none
+    | some (x, r) =>
+      match r with
+      | Tok.sym s :: r1 =>
+        if s == sep then (match sepByGo p sep fuel r1 with | some (xs, r2) => some (x :: xs, r2) | none => none)
+        else some ([x], r)
+      | _ => some ([x], r)
+
+def sepBy {α} (p : P α) (sep : String) : P (List α) := fun toks => sepByGo p sep (toks.length + 1) toks
 
 def pNamedConn : P (Name × Option Expr) := fun toks => do
   let (_, r0) ← expectSym "." toks
@@ -211,9 +245,12 @@ def pItem : P Item
     let (is, r) ← sepBy pInstance "," rest; let (_, r') ← expectSym ";" r; pure (Item.inst m is, r')
   | _ => none
 
-partial def pItems (acc : List Item) : P (List Item)
-  | Tok.kw "endmodule" :: rest => some (acc.reverse, rest)
-  | toks => do let (it, r) ← pItem toks; pItems (it :: acc) r
+def pItemsGo : Nat → List Item → P (List Item)
+  | 0, _, _ => none
+  | _ + 1, acc, Tok.kw "endmodule" :: rest => some (acc.reverse, rest)
+  | fuel + 1, acc, toks => match pItem toks with | some (it, r) => pItemsGo fuel (it :: acc) r | none => none
+
+def pItems (acc : List Item) : P (List Item) := fun toks => pItemsGo (toks.length + 1) acc toks
 
 def pModule : P Module
   | Tok.kw "module" :: rest => do
@@ -259,8 +296,10 @@ def evalExpr (st : TState) : Expr → E (TState × Name)
   | .or a b => evalExpr st a >>= fun ra => evalExpr ra.1 b >>= fun rb =>
       gate rb.1 ("or_" ++ ra.2 ++ "_" ++ rb.2) "or" [ra.2, rb.2]
   | .xor a b => evalExpr st a >>= fun ra => evalExpr ra.1 b >>= fun rb =>
+      if ra.2 == rb.2 then pure (rb.1, "tie_0") else      -- a ^ a (K27 fix)
       gate rb.1 ("xor_" ++ ra.2 ++ "_" ++ rb.2) "xor" [ra.2, rb.2]
   | .xnor a b => evalExpr st a >>= fun ra => evalExpr ra.1 b >>= fun rb =>
+      if ra.2 == rb.2 then pure (rb.1, "tie_1") else
       gate rb.1 ("xnor_" ++ ra.2 ++ "_" ++ rb.2) "xnor" [ra.2, rb.2]
   | .mux c a b => evalExpr st c >>= fun rc => evalExpr rc.1 a >>= fun ra => evalExpr ra.1 b >>= fun rb =>
       let io := rc.2 ++ "_" ++ ra.2 ++ "_" ++ rb.2
@@ -278,7 +317,8 @@ def vpe : Outcome := .other "VerilogParsingError"
 def doAssign (st : TState) (la : Name × Expr) : E TState :=
   evalExpr st la.2 >>= fun r =>
   if la.1 == "tie_0" || la.1 == "tie_1" || la.1 == "tie_x" then pure r.1
-  else if r.1.gateExprs.contains r.2 then pure { r.1 with c := r.1.c.relabel [(r.2, la.1)] }
+  else if r.1.gateExprs.contains r.2 then
+    pure { c := r.1.c.relabel [(r.2, la.1)], gateExprs := r.1.gateExprs.filter (· != r.2) }   -- discard (K7 fix)
   else addNode r.1 la.1 "buf" [r.2] false >>= fun r2 => pure r2.1
 
 def doInstance (bbs : List BBox) (ord : Ord) (modName : Name) (st : TState) (inst : Name × Conns) : E TState :=
